@@ -203,6 +203,9 @@ enum Op {
     /// `failing` the new log's writer sits on a full disk: every log write answers ENOSPC (the writer was
     /// opened while `events.jsonl` pointed at /dev/full), readers re-open the path and see the real file
     Restart { failing: bool },
+    /// the full disk has room again while the store lives: the writer's descriptor (opened on /dev/full) is
+    /// re-pointed at the real log (dup2), so the very same open writer succeeds from now on
+    DiskRecovers,
 }
 
 fn op_name(op: &Op) -> &'static str {
@@ -235,6 +238,7 @@ fn op_name(op: &Op) -> &'static str {
         Op::Replay { .. } => "replay_events",
         Op::Restart { failing: false } => "restart_store",
         Op::Restart { failing: true } => "restart_store_on_full_disk",
+        Op::DiskRecovers => "disk_has_room_again",
     }
 }
 
@@ -275,6 +279,7 @@ fn op_json(op: &Op) -> Value {
         }
         Op::Replay { c } => json!({"c": c}),
         Op::Restart { failing } => json!({"log_writes_fail": failing}),
+        Op::DiskRecovers => json!({}),
     };
     json!({"op": name, "p": body})
 }
@@ -460,6 +465,24 @@ fn builtin_histories() -> Vec<History> {
                 Op::Restart { failing: false },
                 msg(4),
                 Op::Replay { c: 0 },
+            ],
+        ),
+        // the disk is full for a while and has room again while the store lives (same writer): the refused appends
+        // must not show up later
+        (
+            HKind::Cont,
+            vec![
+                Op::EnsureDefault,
+                msg(1),
+                Op::Restart { failing: true },
+                msg(2),
+                Op::RunSpawned { c: 0, m: 0 },
+                Op::Message { c: 0, text: t(12, 3) },
+                Op::DiskRecovers,
+                Op::Replay { c: 0 },
+                msg(4),
+                Op::Replay { c: 0 },
+                msg(5),
             ],
         ),
     ];
@@ -905,6 +928,8 @@ struct Env {
     /// the store's log writer sits on a full disk (`Op::Restart { failing: true }`)
     log_failing: bool,
     ops_while_failing: u64,
+    /// the descriptor of the current store's log writer while it sits on /dev/full
+    full_fd: Option<i32>,
 }
 
 fn kind_str(k: StreamKind) -> &'static str {
@@ -1050,6 +1075,21 @@ impl Env {
             Cut::Both => (Some(self.msg_id(cid, 0)), Some(0)),
         }
     }
+}
+
+/// descriptors of this process that refer to /dev/full
+fn fds_on_dev_full() -> Vec<i32> {
+    let mut v = vec![];
+    if let Ok(rd) = std::fs::read_dir("/proc/self/fd") {
+        for e in rd.flatten() {
+            if let (Ok(target), Some(fd)) = (std::fs::read_link(e.path()), e.file_name().to_str().and_then(|s| s.parse::<i32>().ok())) {
+                if target == Path::new("/dev/full") {
+                    v.push(fd);
+                }
+            }
+        }
+    }
+    v
 }
 
 fn actor(n: u32) -> String {
@@ -1599,7 +1639,9 @@ async fn exec_op(env: &mut Env, i: usize, op: &Op) -> Result<(), String> {
                 std::fs::remove_file(&link).map_err(|e| format!("unlink: {e}"))?;
                 std::os::unix::fs::symlink("/dev/full", &link).map_err(|e| format!("symlink: {e}"))?;
             }
+            let before = fds_on_dev_full();
             let log = EventLog::new(&link);
+            env.full_fd = if *failing { fds_on_dev_full().into_iter().find(|fd| !before.contains(fd)) } else { None };
             if *failing {
                 let _ = std::fs::remove_file(&link);
                 std::os::unix::fs::symlink(&real, &link).map_err(|e| format!("symlink back: {e}"))?;
@@ -1610,6 +1652,22 @@ async fn exec_op(env: &mut Env, i: usize, op: &Op) -> Result<(), String> {
             env.cont_rx = store.subscribe();
             env.store = store;
             env.log_failing = *failing;
+            Ok(())
+        }
+        Op::DiskRecovers => {
+            let Some(fd) = env.full_fd.take() else { return Err("the writer is not on a full disk".to_string()) };
+            if !fds_on_dev_full().contains(&fd) {
+                return Err("the writer's descriptor is gone".to_string());
+            }
+            use std::os::fd::AsRawFd;
+            let real = std::fs::OpenOptions::new().create(true).append(true).open(env.data_dir.join(REAL_LOG)).map_err(|e| e.to_string())?;
+            // SAFETY: fd is an open descriptor of this process (checked above) owned by the store's log writer; dup2
+            // atomically makes it refer to the real log's open file description, the writer is not touched
+            let rc = unsafe { libc::dup2(real.as_raw_fd(), fd) };
+            if rc < 0 {
+                return Err(format!("dup2: {}", std::io::Error::last_os_error()));
+            }
+            env.log_failing = false;
             Ok(())
         }
         Op::Replay { c } => {
@@ -1720,6 +1778,7 @@ async fn run_ops(kind: HKind, ops: &[Op], scratch: &Path) -> Result<RunReport, S
         mid_incl_checked: 0,
         log_failing: false,
         ops_while_failing: 0,
+        full_fd: None,
     };
     let mut stats = Stats::default();
 
